@@ -3,7 +3,7 @@ from ..rules import lifecycle, flow
 from .common import declare
 
 RULES = ['SINGLE-FLIGHT', 'IDEMPOTENT-GUARD', 'STOP-CHECK', 'ITERABLE-ORDER', 'PROPAGATE']
-FLOORS = {'SINGLE-FLIGHT': 3, 'IDEMPOTENT-GUARD': 7, 'STOP-CHECK': 7, 'ITERABLE-ORDER': 2, 'PROPAGATE': 10}
+FLOORS = {'SINGLE-FLIGHT': 2, 'IDEMPOTENT-GUARD': 7, 'STOP-CHECK': 6, 'ITERABLE-ORDER': 2, 'PROPAGATE': 6}
 
 META = {
     'level': "Static analysis of the start/stop protocol of every source class in streamz/sources.py: each site scheduling a "
